@@ -38,9 +38,10 @@ type GenSeamReport struct {
 	GoroutinesOwned bool
 	GoroutinesNote  string
 	SharedProbes    int // files in which shared-state accesses were probed (only when moq has go statements)
-	// Concurrent: moq's own code starts goroutines or imports sync / sync/atomic,
-	// i.e. it takes a position on concurrent use; only then are two generator
-	// instances also run at the same time (the property does not ask for that)
+	// Concurrent: moq's own code starts goroutines or uses mutexes, pools, sync
+	// maps, wait groups or atomics, i.e. devices whose purpose is concurrent
+	// use; only then are two generator instances also run at the same time (the
+	// property does not ask for that; a sync.Once alone does not count)
 	Concurrent bool
 }
 
@@ -98,10 +99,23 @@ func SeamGenerator(dir string, env []string, memoLoad bool, ownGoroutines bool) 
 					return true
 				})
 				for _, im := range f.Imports {
-					if ip := strings.Trim(im.Path.Value, `"`); ip == "sync" || ip == "sync/atomic" {
+					if ip := strings.Trim(im.Path.Value, `"`); ip == "sync/atomic" {
 						rep.Concurrent = true
 					}
 				}
+				ast.Inspect(f, func(n ast.Node) bool {
+					sel, ok := n.(*ast.SelectorExpr)
+					if !ok {
+						return true
+					}
+					if obj, ok := p.TypesInfo.Uses[sel.Sel]; ok && obj.Pkg() != nil && obj.Pkg().Path() == "sync" {
+						switch obj.Name() {
+						case "Mutex", "RWMutex", "Pool", "Map", "WaitGroup", "Cond", "NewCond":
+							rep.Concurrent = true
+						}
+					}
+					return true
+				})
 			}
 		}
 	}
